@@ -349,7 +349,16 @@ def check_head_count(ck: Checker, rid: str, f, label: str):
         for term, val in yres.items():
             if term[0] == 'back' and term[2] == hn.id and val != (1, 1):
                 probs.append(f'a completed iteration yields {val[0]}..{val[1]} elements')
-    ck.ob(rid, f, t.ast, not probs, '; '.join(sorted(set(probs))) if probs else f'{label}: counter `{cnt}` starts at 0, equals the number of yielded elements whenever it is compared, and `{norm_text(t.ast)}` leaves the loop: exactly min(n, len) elements')
+        # no pull after the limit: between a yield and the next pull from the source (the loop header) the limit is
+        # tested -- a loop that tests at the top of the next round has pulled element n+1 by then: if that pull raises
+        # or blocks, head(n) raises or blocks after having delivered its n elements, and the element is lost to a
+        # source that is shared
+        p2 = None
+        for y in ys:
+            p2 = p2 or path_avoiding(cfg, cfg.normal_succ(y), {hn.id}, avoid={t.id})
+        if p2 is not None:
+            probs.append(f'after a yield the source is pulled again (L{hn.lineno}) before the counter is compared with the limit: head(n) takes n+1 elements out of its source — when that extra pull raises or blocks, so does head, after it has delivered all it was asked for')
+    ck.ob(rid, f, t.ast, not probs, '; '.join(sorted(set(probs))) if probs else f'{label}: counter `{cnt}` starts at 0, equals the number of yielded elements whenever it is compared, and `{norm_text(t.ast)}` leaves the loop: exactly min(n, len) elements, and exactly that many pulls')
 
 
 def check_tail_window(ck: Checker, rid: str, f, label: str):
@@ -438,3 +447,34 @@ def check_relay(ck: Checker, rid: str, p):
         probs.append(f'L{reassigned[0].lineno}: `{z}` is re-bound between the dequeue and the yield')
     ck.paths_examined += len(res)
     ck.ob(rid, p.cons, getn.ast, not probs and bool(ys), '; '.join(sorted(set(probs))) if probs else f'{p.label}: every dequeued element that is not a marker is yielded itself, exactly once')
+
+
+def check_classinfo_params(ck: Checker, rid: str, mod, clsname: str):
+    """A user-supplied collection of exception classes that reaches `isinstance` as its second argument must be a class
+    or a tuple by then: `isinstance(x, [ValueError])` and even `isinstance(x, [])` raise TypeError.  The operator methods
+    that take such a parameter (documented as "() or []", annotated `Sequence[type]`) therefore turn a list into a tuple
+    before the parameter is used -- otherwise the first exception object in the stream raises TypeError in place of the
+    documented behaviour (drop / keep / raise the object itself)."""
+    cls = mod.cls(clsname)
+    n_ob = 0
+    for m in cls.methods():
+        params = set(m.params()) - {'self'}
+        if not params:
+            continue
+        # names that carry a parameter into nested scopes: the parameter itself, or self._x = <param> in a nested class
+        carriers = {p: p for p in params}
+        for n in ast.walk(m.node):
+            if isinstance(n, ast.Assign) and len(n.targets) == 1 and isinstance(n.value, ast.Name) and n.value.id in params and dotted(n.targets[0]):
+                carriers[dotted(n.targets[0])] = n.value.id
+        used = {}
+        for n in ast.walk(m.node):
+            if isinstance(n, ast.Call) and dotted(n.func) == 'isinstance' and len(n.args) == 2:
+                d = dotted(n.args[1])
+                if d in carriers:
+                    used.setdefault(carriers[d], n)
+        for p_, site in used.items():
+            # a normalising assignment at the level of the method itself: p = tuple(p) (possibly under a list test), or (p,)
+            norm = [n for n in walk_shallow_func(m.node) if isinstance(n, ast.Assign) and len(n.targets) == 1 and is_name(n.targets[0], p_) and isinstance(n.value, ast.Call) and dotted(n.value.func) == 'tuple' and n.value.args and is_name(n.value.args[0], p_)]
+            n_ob += 1
+            ck.ob(rid, m, site, bool(norm), f'`{p_}` is turned into a tuple (L{norm[0].lineno}) before it reaches `{norm_text(site)[:50]}`' if norm else f'`{p_}` reaches `{norm_text(site)[:60]}` as given: a list — which the documentation of {m.name}() allows, the empty list included — makes isinstance raise TypeError at the first exception object in the stream, in place of dropping / keeping / raising that object')
+    return n_ob
